@@ -311,8 +311,10 @@ example : WellFormed 2 false exHist :=
 example : lastWrite exHist [3, 4] = some ⟨[3, 4], [0xdd], [0xdd]⟩ := by decide
 example : ((afterWrites 2 false exHist).save.openFixed.1.read [3, 4]) = .data [0xdd] := by decide
 example : ((afterWrites 2 false exHist).save.openFixed.1.read [1, 2]) = .data [0xaa, 0xbb] := by decide
-/-- between the two stored keys: the pinned lookup hangs; below the first: not found -/
-example : ((afterWrites 2 false exHist).save.openFixed.1.read [2, 0]) = .hang := by decide
+/-- between the two stored keys: the pinned lookup spins, the repaired one answers not-found; below the first
+key both answer not-found -/
+example : getOffsetFuel false (encodeEntries (sortEntries (afterWrites 2 false exHist).midx)) 2 [2, 0] 4 = .timeout := by decide
+example : getOffsetFuel true (encodeEntries (sortEntries (afterWrites 2 false exHist).midx)) 2 [2, 0] 4 = .notFound := by decide
 example : ((afterWrites 2 false exHist).save.openFixed.1.read [0, 0]) = .notFound := by decide
 example : (afterWrites 2 false exHist).save.idx =
     some [2, 0, 0, 0, 2, 1, 2, 5, 0, 0, 0, 0, 0, 0, 0, 2, 3, 4, 11, 0, 0, 0, 0, 0, 0, 0] := by decide
